@@ -18,6 +18,7 @@ LONG = 90 * 86400
 CH = ['http-01', 'dns-01', 'tls-alpn-01']
 FILE_T = ['file-pre-create', 'file-post-create', 'file-pre-edit', 'file-post-edit']
 LEVELS = ['daemon', 'global', 'certificate', 'identifier']
+ENVT = ['VF_D', 'VF_DG', 'VF_DGCI', 'VF_I', 'VF_C', 'VF_DC']
 
 
 # -------------------------------------------------------------------- model
@@ -161,7 +162,7 @@ def gen_case(i, r):
         for b, l in enumerate(LEVELS):
             if mask >> b & 1:
                 env[l][var] = l
-    return {'i': i, 'hooks': hooks, 'groups': groups, 'cert_hooks': cert_hooks, 'acc_hooks': acc_hooks,
+    return {'i': i, 'spelling': [None, None, 'upper', 'title', 'mixed'][i % 5], 'hooks': hooks, 'groups': groups, 'cert_hooks': cert_hooks, 'acc_hooks': acc_hooks,
             'ids': [(a, b) for a, b, _ in ids], 'id_kinds': [c for _, _, c in ids], 'exit': exits, 'env': env,
             'acc_env': {'VF_ACC': 'account', 'VF_D': 'account-over-daemon'}}
 
@@ -188,9 +189,15 @@ def run_case(case):
             hh['args'].append('rev={{ identifier | rev_labels }}')
             # a template without any {{ }}: block statements only
             hh['args'].append('cond={% if is_clean_hook %}clean{% elif is_success %}ok{% else %}plain{% endif %}')
+            # the `env` template variable: every environment variable, the daemon's own included, with the documented precedence
+            hh['args'].append('envt=' + '/'.join('{{ env.%s }}' % v for v in ENVT))
             hooks.append(hh)
         idl = []
-        for (v, ctype), kind in zip(case['ids'], case['id_kinds']):
+        for k, ((v, ctype), kind) in enumerate(zip(case['ids'], case['id_kinds'])):
+            sp = case.get('spelling')
+            if sp:
+                # challenge names are case-insensitive in the configuration
+                ctype = {'upper': ctype.upper(), 'title': ctype.title(), 'mixed': ''.join(ch.upper() if j % 2 else ch for j, ch in enumerate(ctype))}[sp]
             idl.append({kind: v, 'challenge': ctype, 'env': dict(case['env']['identifier'])})
         c = S.std_config(d, ca, [{'name': 'c0', 'identifiers': idl, 'hooks': case['cert_hooks'], 'env': dict(case['env']['certificate'])}],
                          accounts=[{'name': 'acc1', 'hooks': case['acc_hooks'], 'env': dict(case['acc_env'])}],
@@ -274,6 +281,18 @@ def run_case(case):
                 want_cond = 'clean' if (event.startswith('challenge') and det.get('clean')) else ('ok' if (event == 'post-operation' and det.get('is_success')) else 'plain')
                 if kv.get('cond') != want_cond:
                     pb.append(('variables', '%s: block-only template rendered as %r, expected %r' % (event, kv.get('cond'), want_cond)))
+                # env.* inside templates follows the same precedence as the process environment of the hook
+                if owner == 'cert':
+                    lv = ['daemon', 'global', 'certificate'] + (['identifier'] if event.startswith('challenge') else [])
+                    wl = []
+                    for var in ENVT:
+                        present = [l for l in LEVELS if l[0].upper() in var[3:] and l in lv]
+                        wl.append(present[-1] if present else '')
+                    if kv.get('envt') != '/'.join(wl):
+                        pb.append(('env-template', '%s hook %s: {{ env.X }} for X in %s rendered as %r, the documented environment gives %r' % (
+                            event, hook, ENVT, kv.get('envt'), '/'.join(wl))))
+                elif (kv.get('envt') or '').split('/')[0] != 'account-over-daemon':
+                    pb.append(('env-template', 'account file hook %s: {{ env.VF_D }} rendered as %r' % (hook, (kv.get('envt') or '').split('/')[0])))
                 # exit code the recorder was told to use = the model's
                 if g.get('exit') != det['exit']:
                     pb.append(('order', '%s %s: invocation count differs (recorder exit %s, model %s)' % (hook, event, g.get('exit'), det['exit'])))
@@ -381,7 +400,7 @@ def run(tier):
                 key = 'environment|%s' % what.split(' hook ')[0]
             chk.violation('C10|%s' % key, what, res, res.get('replay_dir'))
     chk.rule = ('generated hook sets: 1-8 hooks with 1-4 types each, 0-3 (nested) groups, hooks listed twice, allow_failure x scripted exit codes, '
-                'stdin / stdin_str / stdout / stderr templates, rev_labels, 15 environment variables covering every subset of (daemon, global, certificate, '
+                'stdin / stdin_str / stdout / stderr templates, rev_labels, {{ env.X }} templates, challenge names in other letter cases, 15 environment variables covering every subset of (daemon, global, certificate, '
                 'identifier); 1-3 identifiers over the three challenge types; first issuance + renewal and the retries the exit codes cause; '
                 'distinct = configurations with matched invocations')
     chk.assumptions = ['model of acmed.toml(5): sections hook, group, WRITING A HOOK', 'account hooks judged with account env over the daemon environment only']
